@@ -327,7 +327,7 @@ def cases(draw):
         "n_iter": draw(st.integers(1, 6)), "rs": draw(st.integers(0, 10 ** 6)),
         "values": draw(gen.series_values(n, n, lo=5.0, hi=300.0)),
         "start": draw(gen.index_start), "index_kind": draw(gen.index_kind),
-        "metric": draw(st.sampled_from(["smape", "mape_asym", "mse", "mse", "ratio", "ratio", "nanflat", "default", "infover"])),
+        "metric": draw(st.sampled_from(["smape", "mape_asym", "mse", "mse", "ratio", "ratio", "nanflat", "default", "infover", "negmse", "negmse"])),
         "refit": draw(st.sampled_from([True, True, False])),
         "strategy": draw(st.sampled_from(["refit", "refit", "update"])),
         "scale": draw(st.sampled_from([1.0, 1.0, 1e-6, 1e-4, 1e-3, 1e4])),
